@@ -1,6 +1,8 @@
 import GridVerif.Props.C11
 import GridVerif.Props.C11.Gen
 import GridVerif.Props.C11.Warn
+import GridVerif.Props.C11.Indep
+import GridVerif.Props.C11.Handed
 
 #print axioms GridVerif.C11.ilc_in_box
 #print axioms GridVerif.C11.periodic_complete
@@ -46,3 +48,9 @@ import GridVerif.Props.C11.Warn
 #print axioms GridVerif.C11.gen_init_warning_spec
 #print axioms GridVerif.C11.gen_wrap_never_warns
 #print axioms GridVerif.C11.gen_nowarn_range_small
+#print axioms GridVerif.C11.gen_pquery_closed
+#print axioms GridVerif.C11.gen_localgrid_pairs_independent_of_weights
+#print axioms GridVerif.C11.gen_init_recivecs_dual
+#print axioms GridVerif.C11.exL_left_handed
+#print axioms GridVerif.C11.exLDual
+#print axioms GridVerif.C11.gen_init_left_handed
